@@ -187,20 +187,35 @@ DoKv ==
         /\ used' = IF devOk THEN used \cup (IF d # w23 \/ M.skip23 = {} THEN {DevD21} ELSE {}) \cup (IF d # w21 \/ M.skip = {} THEN {DevD23} ELSE {}) ELSE used
         /\ cnt' = IF caught THEN Bump(cnt, IF M.mode = "service" THEN (IF M.skip # {} \/ M.done # {} THEN "caught.service" ELSE "caught.service-empty") ELSE "caught.direct") ELSE cnt
 
+(* KVIndexer.GetByTxHash / GetByBlockAndIndex are functions of the index contents alone (M.kv, bound to the real
+   database by every dump; at catch-up M.kv = Index(chain)): whichever instance answers - the one that indexed, a fresh
+   one after a restart before it indexes anything, one that never indexes - every tx in the index is found both ways
+   with the same record, the record is the tx's real position in the chain, and nothing else is found. *)
+RealRecord(x, r) ==
+  /\ r.h \in 1..Len(M.chain) /\ (r.txIdx + 1) \in 1..Len(M.chain[r.h].txs)
+  /\ LET t == M.chain[r.h].txs[r.txIdx + 1] IN
+       t.hash = x /\ Admitted(t) /\ r.ethIdx = EthIdxOf(M.chain[r.h].txs, r.txIdx + 1) /\ r.failed = Failed(t)
+
 DoLookup ==
   /\ Ev.ev = "Lookup"
-  /\ LET E == M.expect
+  /\ LET E == M.kv
          c == IF Ev.by = "hash" THEN
-                LET exp == IF Ev.hash \in DOMAIN E.byHash THEN [found |-> TRUE, r |-> E.byHash[Ev.hash]] ELSE [found |-> FALSE, r |-> NoVal]
-                IN IF Ev.res = exp THEN OK ELSE <<"LookupAgree", "by-hash-differs-from-real-position">>
+                LET has == Ev.hash \in DOMAIN E.byHash IN
+                IF has /\ ~Ev.res.found THEN <<"LookupAgree", "indexed-tx-not-found-by-hash">>
+                ELSE IF ~has /\ Ev.res.found THEN <<"LookupAgree", "by-hash-finds-a-tx-that-is-not-in-the-index">>
+                ELSE IF has /\ Ev.res.r # E.byHash[Ev.hash] THEN <<"LookupAgree", "by-hash-record-differs-from-index">>
+                ELSE IF has /\ ~RealRecord(Ev.hash, Ev.res.r) THEN <<"LookupAgree", "by-hash-record-differs-from-real-position">>
+                ELSE OK
               ELSE
                 LET k == <<Ev.h, Ev.i>>
-                    exp == IF k \in DOMAIN E.byIdx THEN [found |-> TRUE, r |-> E.byHash[E.byIdx[k]]] ELSE [found |-> FALSE, r |-> NoVal]
-                IN IF Ev.res # exp THEN <<"LookupAgree", "by-block-and-index-differs-from-real-position">>
-                   ELSE IF exp.found /\ Ev.hash # E.byIdx[k] THEN <<"LookupAgree", "by-index-and-by-hash-disagree">>
+                    has == k \in DOMAIN E.byIdx /\ E.byIdx[k] \in DOMAIN E.byHash
+                IN IF has /\ ~Ev.res.found THEN <<"LookupAgree", "indexed-tx-not-found-by-block-and-index">>
+                   ELSE IF ~has /\ Ev.res.found THEN <<"LookupAgree", "by-block-and-index-finds-a-tx-that-is-not-in-the-index">>
+                   ELSE IF has /\ (Ev.res.r # E.byHash[E.byIdx[k]] \/ Ev.hash # E.byIdx[k]) THEN <<"LookupAgree", "by-block-and-index-differs-from-by-hash">>
+                   ELSE IF has /\ (Ev.res.r.h # Ev.h \/ Ev.res.r.ethIdx # Ev.i) THEN <<"LookupAgree", "by-block-and-index-record-is-at-another-position">>
                    ELSE OK
      IN Settle(c, M)
-  /\ cnt' = Bump(cnt, "lookup." \o Ev.by)
+  /\ cnt' = Bump(cnt, "lookup." \o Ev.when \o "." \o Ev.by)
   /\ UNCHANGED used
 
 DoCompare ==
